@@ -2,6 +2,14 @@ module verif
 
 go 1.21
 
-require github.com/paulmach/osm v0.0.0
+require (
+	github.com/paulmach/orb v0.1.3
+	github.com/paulmach/osm v0.0.0
+)
+
+require (
+	github.com/paulmach/protoscan v0.2.1 // indirect
+	google.golang.org/protobuf v1.27.1 // indirect
+)
 
 replace github.com/paulmach/osm => /repo
